@@ -4,9 +4,11 @@
 package verifrt
 
 import (
+	"context"
 	"fmt"
 	"io"
 	"os"
+	"os/signal"
 	"sort"
 	"sync"
 	"time"
@@ -243,6 +245,7 @@ func ResetSync() {
 	onces = nil
 	conds = nil
 	SyncWaits = map[string]int{}
+	SignalChans = nil
 }
 
 // SyncWaits counts, per primitive, how often a task had to wait (read by the engine after a world).
@@ -481,4 +484,50 @@ func AfterFunc(d time.Duration, f func(), site int32) *time.Timer {
 		Start(h)
 		f()
 	})
+}
+
+// os/signal. Inside a simulated world no signal is ever delivered (registering with the runtime's
+// signal machinery from inside a synctest bubble is fatal): the calls only remember the channel.
+
+var SignalChans []chan<- os.Signal // channels registered during the current world (reset by ResetSync)
+
+func simulated() bool {
+	if PreHook == nil {
+		return false
+	}
+	h := ExitingHook
+	return h != nil // hooks installed: the engine owns the process
+}
+
+func SignalNotify(c chan<- os.Signal, sig ...os.Signal) {
+	if !simulated() {
+		signal.Notify(c, sig...)
+		return
+	}
+	SignalChans = append(SignalChans, c)
+}
+
+func SignalStop(c chan<- os.Signal) {
+	if !simulated() {
+		signal.Stop(c)
+	}
+}
+
+func SignalIgnore(sig ...os.Signal) {
+	if !simulated() {
+		signal.Ignore(sig...)
+	}
+}
+
+func SignalReset(sig ...os.Signal) {
+	if !simulated() {
+		signal.Reset(sig...)
+	}
+}
+
+func SignalNotifyContext(parent context.Context, sig ...os.Signal) (context.Context, context.CancelFunc) {
+	if !simulated() {
+		return signal.NotifyContext(parent, sig...)
+	}
+	return context.WithCancel(parent)
 }
